@@ -172,6 +172,9 @@ type nHist struct {
 	// cand: (peer endpoint, destination) pairs for which the routing oracle says "forward"
 	cand   [][2]nEid
 	events []nEvent
+	// tickPause: real time that passes before every retry tick (not part of the line: wall-clock time is a
+	// parameter of the model; the bundles of such a history outlive it by a wide margin)
+	tickPause time.Duration
 }
 
 func (h *nHist) bundle(tag int) *nBundle {
@@ -403,6 +406,9 @@ func (r *nRun) exec(e nEvent) {
 		c.claManager.Unregister(m)
 		c.routing.ReportPeerDisappeared(m)
 	case 'T':
+		if r.h.tickPause > 0 {
+			time.Sleep(r.h.tickPause)
+		}
 		c.checkPendingBundles()
 	case 'C':
 		c.store.DeleteExpired()
